@@ -202,7 +202,8 @@ pub(crate) fn ended(conn_state: &mut ConnState) {
     let lost = matches!((&mut conn_state.quit_receiver).now_or_never(), Some(Ok(_)));
     let mut reg = REG.lock().unwrap();
     if let Some(rec) = reg.conns.get_mut(&conn_state.verif_key) {
-        rec.q_dropped += dropped;
+        rec.q_dropped += dropped + rec.q_pending;
+        rec.q_pending = 0;
         if lost {
             rec.kills_lost += 1;
         }
